@@ -23,7 +23,7 @@ from ..vlib import J, run_call
 
 WORDLIST_SHA256 = "2f5eed53a4727b4bf8880d8f3f199efc90e58503646d9ff8eff3a2ed3b24dbda"
 VALID = (16, 20, 24, 28, 32)
-NONLIST = ["zzzz", "abandonn", "Abandon", "ABOUT", "zoo!", "\u00e1baco", "abou", "0", "about\u0301", "legall"]
+NONLIST = ["zzzz", "abandonn", "abando", "zo", "zoo!", "\u00e1baco", "abou", "0", "about\u0301", "legall"]   # no case variants
 _WORDS = None
 
 
